@@ -162,3 +162,24 @@ T('C15', 'init-bracket-selection', [(DS, "        self.df = df.loc[:,domain.attr
 T('C15', 'size-is-none', [(DOM, "        if attrs == None:", "        if attrs is None:")])
 T('C15', 'datavector-arange', [(DS, "        bins = [range(n+1) for n in self.domain.shape]", "        bins = [np.arange(n+1) for n in self.domain.shape]")])
 K('C14', 'sum-none-truthiness', [(F, "    def sum(self, attrs = None):\n        if attrs is None:", "    def sum(self, attrs = None):\n        if not attrs:")], 'none-test')
+
+# ------------------------------------------------------------------ C07
+CDP = 'mechanisms/cdp2adp.py'
+K('C07', 'rho-return-rhomax', [(CDP, "    return rhomin", "    return rhomax")], 'sound-side')
+K('C07', 'rho-test-flipped', [(CDP, "        rho=(rhomin+rhomax)/2\n        if cdp_delta(rho,eps)<=delta:", "        rho=(rhomin+rhomax)/2\n        if cdp_delta(rho,eps)>delta:")], 'sound-side')
+K('C07', 'eps-branches-swapped', [(CDP, "            epsmax=eps\n        else:\n            epsmin=eps", "            epsmin=eps\n        else:\n            epsmax=eps")], 'sound-side')
+K('C07', 'delta-exponent-sign', [(CDP, "math.exp((alpha-1)*(alpha*rho-eps)+alpha*math.log1p(-1/alpha))", "math.exp((alpha-1)*(alpha*rho+eps)+alpha*math.log1p(-1/alpha))")], 'delta-formula')
+K('C07', 'amin-below-one', [(CDP, "    amin=1.01 ", "    amin=0.5 ")], 'alpha-range')
+K('C07', 'delta-no-denominator', [(CDP, "+alpha*math.log1p(-1/alpha)) / (alpha-1.0)", "+alpha*math.log1p(-1/alpha))")], 'delta-formula')
+K('C07', 'orientation-flipped', [(CDP, "        if derivative<0:\n            amin=alpha\n        else:\n            amax=alpha", "        if derivative>0:\n            amin=alpha\n        else:\n            amax=alpha")], 'orientation')
+K('C07', 'derivative-wrong', [(CDP, "derivative = (2*alpha-1)*rho-eps+math.log1p(-1.0/alpha)", "derivative = (2*alpha+1)*rho-eps+math.log1p(-1.0/alpha)")], 'derivative')
+K('C07', 'rho-seed-closed-form', [(CDP, "    rhomin=0.0 ", "    rhomin=eps**2/(4*math.log(1/delta)) ")], 'sound-seed')
+K('C07', 'amax-too-small', [(CDP, "    amax=(eps+1)/(2*rho)+2", "    amax=(1+eps/rho)/2+2")], 'alpha-range')
+K('C07', 'eps-seed-no-rho', [(CDP, "    epsmax=rho+2*math.sqrt(rho*math.log(1/delta))", "    epsmax=2*math.sqrt(rho*math.log(1/delta))")], 'sound-seed')
+K('C07', 'eps-args-swapped', [(CDP, "        eps=(epsmin+epsmax)/2\n        if cdp_delta(rho,eps)<=delta:", "        eps=(epsmin+epsmax)/2\n        if cdp_delta(eps,rho)<=delta:")], 'sound-side')
+K('C07', 'delta-zero-case-removed', [(CDP, "    assert eps>=0\n    if rho==0: return 0 #degenerate case\n\n    #search for best alpha", "    assert eps>=0\n\n    #search for best alpha")], 'sound-seed')
+T('C07', 'log-instead-of-log1p', [(CDP, "derivative = (2*alpha-1)*rho-eps+math.log1p(-1.0/alpha)", "derivative = (2*alpha-1)*rho-eps+math.log(1-1.0/alpha)")])
+T('C07', 'derivative-ge-swapped', [(CDP, "        if derivative<0:\n            amin=alpha\n        else:\n            amax=alpha", "        if derivative>=0:\n            amax=alpha\n        else:\n            amin=alpha")])
+T('C07', 'midpoint-half', [(CDP, "        rho=(rhomin+rhomax)/2", "        rho=0.5*(rhomin+rhomax)")])
+T('C07', 'amax-wider', [(CDP, "    amax=(eps+1)/(2*rho)+2", "    amax=(eps+1)/(2*rho)+3")])
+T('C07', 'delta-factored', [(CDP, "math.exp((alpha-1)*(alpha*rho-eps)+alpha*math.log1p(-1/alpha)) / (alpha-1.0)", "math.exp(alpha*(alpha-1)*rho-(alpha-1)*eps+alpha*math.log1p(-1/alpha)) / (alpha-1)")])
